@@ -1,6 +1,7 @@
 package g_disp
 
 import (
+	"encoding/hex"
 	"math/big"
 	"regexp"
 	"strings"
@@ -19,6 +20,9 @@ type c10Case struct {
 	Route   string  `json:"route"`            // pipe_unary | pipe_stream | http_unary | http_init | pipe_describe | http_describe
 	Beyond  bool    `json:"beyond_int64,omitempty"`
 	Variant string  `json:"variant"`
+	// ClientHex, when set, is the client's version string as hex (strings that
+	// are not valid UTF-8 do not survive JSON); it replaces Client.
+	ClientHex string `json:"client_hex,omitempty"`
 	// Prelude: the same Server object first declared PrevServer ("" = none)
 	// and served one call stamped PrevClient (nil = the judged call's own
 	// version string), then was re-declared to Server for the judged call.
@@ -60,7 +64,7 @@ func genC10(t *rapid.T) c10Case {
 		return n.String()
 	}
 	set := func(v string) { c.Client = &v }
-	variants := []string{"absent", "identical", "patch", "minor+1", "minor-1", "major+1", "major-1", "random", "leading-zero", "prerelease", "build", "space", "newline", "empty", "two-part", "four-part", "unicode-digits", "v-prefix", "noise"}
+	variants := []string{"absent", "identical", "patch", "minor+1", "minor-1", "major+1", "major-1", "random", "leading-zero", "prerelease", "build", "space", "newline", "empty", "two-part", "four-part", "unicode-digits", "v-prefix", "noise", "stray-bytes"}
 	c.Variant = variants[rapid.IntRange(0, len(variants)-1).Draw(t, "variant")]
 	switch c.Variant {
 	case "absent":
@@ -100,6 +104,12 @@ func genC10(t *rapid.T) c10Case {
 		set("v" + base)
 	case "noise":
 		set(rapid.String().Draw(t, "noise"))
+	case "stray-bytes":
+		// a canonical string with bytes mixed in that sanitising layers tend to
+		// drop: invalid UTF-8, NUL, zero-width and BOM code points
+		stray := []string{"\xff", "\x80", "\xc3", "\xed\xa0\x80", "\x00", "\u200b", "\ufeff", "\u00ad"}[rapid.IntRange(0, 7).Draw(t, "stray")]
+		pos := rapid.IntRange(0, len(base)).Draw(t, "straypos")
+		c.ClientHex = hex.EncodeToString([]byte(base[:pos] + stray + base[pos:]))
 	}
 	if rapid.IntRange(0, 3).Draw(t, "prelude") == 0 {
 		// a server whose declared version changes while it serves: what was
@@ -140,6 +150,11 @@ func refSemver(s string) (maj, min *big.Int, ok bool) {
 }
 
 func runC10(c c10Case) (out lib.Outcome) {
+	if c.ClientHex != "" {
+		b, _ := hex.DecodeString(c.ClientHex)
+		v := string(b)
+		c.Client = &v
+	}
 	lib.ResetEvents()
 	out.Label("route:"+c.Route, "variant:"+c.Variant)
 	if c.Beyond {
